@@ -210,3 +210,206 @@ package stun
 //@   loop 0
 //@     invariant -1 <= rangeindex && forall(j, 0, rangeindex+1, m.Attributes[j].Type != t)
 //@     decreases len(m.Attributes) - rangeindex
+
+// ---- checks ----
+
+//@ func CheckSize(a, got, expected)
+//@   safety C05 C07
+//@   props C05 C07
+//@   pure
+//@   allocates
+//@   ensures result == nil <==> got == expected
+
+//@ func CheckOverflow(t, got, maxVal)
+//@   safety C07 C09
+//@   props C07 C09 C06
+//@   pure
+//@   allocates
+//@   ensures result == nil <==> got <= maxVal
+
+//@ func checkHMAC
+//@   safety C04 C07
+//@   props C04 C07
+//@   pure
+//@   allocates
+//@   ensures result == nil <==> bytes_eq(got, expected)
+
+//@ func checkFingerprint
+//@   safety C05 C07
+//@   props C05 C07
+//@   pure
+//@   allocates
+//@   ensures result == nil <==> got == expected
+
+//@ func FingerprintValue
+//@   safety C05 C07
+//@   props C05 C07
+//@   pure
+//@   ensures result == xor32(crc32(b), 0x5354554e)
+
+// ---- getters (C07: total, local, side-effect free) ----
+
+//@ func (*XORMappedAddress).GetFromAs
+//@   safety C07
+//@   props C07
+//@   requires a != nil && msg != nil
+//@   requires region(a.IP) != region(msg.Raw)
+//@   assigns a.IP, a.Port, mem(a.IP)
+//@   allocates
+//@   ensures unchanged(msg.Raw)
+//@   loop 0
+//@     assigns a.IP, mem(a.IP)
+//@     invariant region(a.IP) == loopold(region(a.IP)) || loopfresh(a.IP)
+//@     decreases ipLen - len(a.IP)
+//@   loop 1
+//@     assigns mem(a.IP)
+//@     invariant -1 <= rangeindex
+//@     decreases len(a.IP) - rangeindex
+
+//@ func (*XORMappedAddress).GetFrom
+//@   safety C07
+//@   props C07
+//@   requires a != nil && m != nil
+//@   requires region(a.IP) != region(m.Raw)
+//@   assigns a.IP, a.Port, mem(a.IP)
+//@   allocates
+//@   ensures unchanged(m.Raw)
+
+//@ func (*MappedAddress).GetFromAs
+//@   safety C07
+//@   props C07
+//@   requires a != nil && m != nil
+//@   requires region(a.IP) != region(m.Raw)
+//@   assigns a.IP, a.Port, mem(a.IP)
+//@   allocates
+//@   ensures unchanged(m.Raw)
+//@   loop 0
+//@     assigns a.IP, mem(a.IP)
+//@     invariant region(a.IP) == loopold(region(a.IP)) || loopfresh(a.IP)
+//@     decreases ipLen - len(a.IP)
+//@   loop 1
+//@     assigns mem(a.IP)
+//@     invariant -1 <= rangeindex
+//@     decreases len(a.IP) - rangeindex
+
+//@ func (*MappedAddress).GetFrom
+//@   safety C07
+//@   props C07
+//@   requires a != nil && m != nil
+//@   requires region(a.IP) != region(m.Raw)
+//@   assigns a.IP, a.Port, mem(a.IP)
+//@   allocates
+//@   ensures unchanged(m.Raw)
+
+//@ func (*AlternateServer).GetFrom
+//@   safety C07
+//@   props C07
+//@   requires s != nil && m != nil
+//@   requires region(s.IP) != region(m.Raw)
+//@   assigns s.IP, s.Port, mem(s.IP)
+//@   allocates
+//@   ensures unchanged(m.Raw)
+
+//@ func (*ResponseOrigin).GetFrom
+//@   safety C07
+//@   props C07
+//@   requires o != nil && m != nil
+//@   requires region(o.IP) != region(m.Raw)
+//@   assigns o.IP, o.Port, mem(o.IP)
+//@   allocates
+//@   ensures unchanged(m.Raw)
+
+//@ func (*OtherAddress).GetFrom
+//@   safety C07
+//@   props C07
+//@   requires o != nil && m != nil
+//@   requires region(o.IP) != region(m.Raw)
+//@   assigns o.IP, o.Port, mem(o.IP)
+//@   allocates
+//@   ensures unchanged(m.Raw)
+
+//@ func (*TextAttribute).GetFromAs
+//@   safety C07
+//@   props C07 C06
+//@   requires v != nil && m != nil
+//@   assigns *v
+//@   ensures result == nil <==> First(m.Attributes, t) < len(m.Attributes)
+//@   ensures result == nil ==> sameslice(*v, m.Attributes[First(m.Attributes, t)].Value)
+//@   ensures result != nil ==> sameslice(*v, old(*v))
+
+//@ func (*Username).GetFrom
+//@   safety C07
+//@   props C07
+//@   requires u != nil && m != nil
+//@   assigns *u
+//@ func (*Realm).GetFrom
+//@   safety C07
+//@   props C07
+//@   requires n != nil && m != nil
+//@   assigns *n
+//@ func (*Nonce).GetFrom
+//@   safety C07
+//@   props C07
+//@   requires n != nil && m != nil
+//@   assigns *n
+//@ func (*Software).GetFrom
+//@   safety C07
+//@   props C07
+//@   requires s != nil && m != nil
+//@   assigns *s
+
+//@ func (*ErrorCodeAttribute).GetFrom
+//@   safety C07
+//@   props C07
+//@   requires c != nil && m != nil
+//@   assigns *c
+
+//@ func (*UnknownAttributes).GetFrom
+//@   safety C07
+//@   props C07
+//@   requires a != nil && m != nil
+//@   requires region(*a) != region(m.Raw)
+//@   assigns *a, mem(*a)
+//@   allocates
+//@   loop 0
+//@     assigns *a, mem(*a)
+//@     invariant 0 <= first && first <= len(v) && (len(v) - first) % 4 == 0
+//@     invariant region(*a) == loopold(region(*a)) || loopfresh(*a)
+//@     decreases len(v) - first
+
+// ---- checkers ----
+
+//@ func newHMAC
+//@   props C04 C18
+//@   assigns buf[len(buf):min(cap(buf), len(buf)+20)]
+//@   allocates
+//@   ensures len(result) == len(buf) + 20
+//@   ensures (region(result) == region(buf) && off(result) == off(buf) && len(buf) + 20 <= cap(buf)) || fresh(result)
+//@   ensures forall(i, 0, len(buf), result[i] == old(buf[i]))
+//@   ensures forall(i, 0, 20, result[len(buf)+i] == old(hmacsha1(key, message, i)))
+
+//@ func (*Message).WriteLength
+//@   transparent
+//@ func (*Message).grow
+//@   transparent
+
+//@ func MessageIntegrity.Check
+//@   safety C07 C04
+//@   props C07
+//@   requires msg != nil && DecodedViews(msg) && DecodedContent(msg)
+//@   assigns msg.Length, mem(msg.Raw)
+//@   allocates
+//@   ensures msg.Length == old(msg.Length) && sameslice(msg.Raw, old(msg.Raw))
+//@   ensures forall(i, 0, len(msg.Raw), msg.Raw[i] == old(msg.Raw[i]))
+//@   loop 0
+//@     invariant -1 <= rangeindex && rangeindex < len(msg.Attributes)
+//@     invariant afterIntegrity <==> First(msg.Attributes, 8) <= rangeindex
+//@     invariant sizeReduced == ite(afterIntegrity, start(msg.Raw, rangeindex+1) - start(msg.Raw, First(msg.Attributes, 8)+1), 0)
+//@     decreases len(msg.Attributes) - rangeindex
+
+//@ func FingerprintAttr.Check
+//@   safety C07 C05
+//@   props C07
+//@   requires m != nil && DecodedViews(m)
+//@   pure
+//@   allocates
